@@ -15,6 +15,24 @@ E1_TECH = ('bounded symbolic execution of the real yatiml/PyYAML code with '
            'bounds), counterexamples replayed on the unstubbed public API')
 
 CHECKS = {
+    'C05': dict(
+        engine='E2-z3-regex',
+        text='All-strings scalar lemmas decided by z3 over the real resolver '
+             'tables of a generated dumper and loader (whatever the dumper '
+             'may write plain as str/int/float/bool/null/date comes back with '
+             'that type), plus bounded end-to-end symbolic execution of '
+             'load(dumps(v)) == v over the factor space of 12 class models '
+             '(adversarial strings, non-finite floats, dates, paths, enums, '
+             'string-likes and keys, extras, default-dropping sweeten, '
+             'sweeten/savorize inverse pairs, shared sub-objects).',
+        design='4/C05',
+        technique='SMT (z3 regex theory) over the live dumper/loader resolver '
+                  'tables for the all-strings part; CrossHair bounded '
+                  'end-to-end round trips on solver-chosen values',
+        note='Trusted base: re->z3 translator and resolve encoding (validated '
+             'on every run), PyYAML emitter contract (a str is written plain '
+             'only if the dumper resolves its value to str), '
+             'float(repr(x))==x, CrossHair, z3.'),
     'C03': dict(
         text='Bounded model checking of the real Recognizer on five class '
              'hierarchies (abstract middle, unregistered middle, ambiguous '
